@@ -25,6 +25,7 @@ pub struct Peer {
     pub lazy_grants: Vec<(u32, u32)>,
     pub req_done: Vec<u32>,
     pub eof_sent: bool,
+    pub reset_sids: Vec<u32>,
 }
 
 pub fn unhex(s: &str) -> Vec<u8> {
@@ -59,6 +60,7 @@ impl Peer {
             lazy_grants: vec![],
             req_done: vec![],
             eof_sent: false,
+            reset_sids: vec![],
         }
     }
 
@@ -96,6 +98,9 @@ impl Peer {
             w.dirs[real_ep].consumed_frames = self.seen_out;
             w.log(json!({"t": "peer_rx", "ep": EP[real_ep], "idx": self.seen_out}));
             match f.ty {
+                RST_STREAM => {
+                    self.reset_sids.push(f.sid);
+                }
                 SETTINGS => {
                     if f.flags & F_ACK == 0 && self.cfg.ack_settings {
                         self.send(w, &f_settings_ack());
@@ -168,7 +173,7 @@ impl Peer {
     }
 
     fn request_done(&mut self, w: &mut World, sid: u32) {
-        if self.ep == 1 && self.cfg.respond && sid % 2 == 1 && !self.req_done.contains(&sid) {
+        if self.ep == 1 && self.cfg.respond && sid % 2 == 1 && !self.req_done.contains(&sid) && !self.reset_sids.contains(&sid) {
             self.req_done.push(sid);
             let block = enc_literal_block(&[(b":status".to_vec(), b"200".to_vec())], false);
             for f in f_headers(sid, &block, true, self.cfg.max_frame, None) {
@@ -219,7 +224,10 @@ impl Peer {
             PeerStep::SettingsAck => self.send(w, &f_settings_ack()),
             PeerStep::Ping { ack, pl } => self.send(w, &f_ping(ack, pl.to_be_bytes())),
             PeerStep::Wu { sid, inc } => self.send(w, &f_window_update(sid, inc)),
-            PeerStep::Rst { sid, code } => self.send(w, &f_rst(sid, code)),
+            PeerStep::Rst { sid, code } => {
+                self.reset_sids.push(sid);
+                self.send(w, &f_rst(sid, code))
+            }
             PeerStep::Goaway { last, code, dbg } => self.send(w, &f_goaway(last, code, &vec![b'd'; dbg])),
             PeerStep::Data { sid, n, eos, pad } => {
                 let off = *self.sent_off.get(&sid).unwrap_or(&0);
